@@ -58,3 +58,10 @@ Definition payload_local (kl kr : Z) (h : row -> list row -> Z) : Prop :=
    one row per input row) *)
 Definition same_cuts (fs : list (list row -> list row)) : Prop :=
   forall f1 f2 I x, In f1 fs -> In f2 fs -> dsp I -> (straddled (f1 I) x <-> straddled (f2 I) x).
+
+(* weaker: of any two computations, one can be cut wherever the other can (e.g. a per-row output and a
+   group former: every cut of the group output is a cut of the per-row output) *)
+Definition nested_cuts (fs : list (list row -> list row)) : Prop :=
+  forall f1 f2, In f1 fs -> In f2 fs ->
+    (forall I x, dsp I -> straddled (f1 I) x -> straddled (f2 I) x) \/
+    (forall I x, dsp I -> straddled (f2 I) x -> straddled (f1 I) x).
